@@ -629,10 +629,8 @@ func (e *env) eval(tc tcase) bool {
 	}
 	// (2', limits read as the specification does, 0 = none) a message within the receiver's advertised limits is accepted
 	if legal && maxw <= maySend && !exceeds(advReceiver, o.n, len(o.wire)) && (o.verdict == "too-many-chunks" || o.verdict == "message-too-large") {
+		// (a server refusing what it advertised, 0 = no limit included, was C06.zero-limit-server: repaired, no signature)
 		sig := ""
-		if tc.dir == "c2s" && ((o.verdict == "message-too-large" && tc.S.maxMsg == 0) || (o.verdict == "too-many-chunks" && tc.S.maxChunks == 0)) {
-			sig = "C06.zero-limit-server"
-		}
 		if tc.dir == "s2c" && ((o.verdict == "message-too-large" && uint64(o.n) > uint64(o.cview.maxMsg)) || (o.verdict == "too-many-chunks" && uint64(len(o.wire)-1) > uint64(o.cview.maxChunks))) {
 			sig = "C06.client-limits-from-ack"
 		}
